@@ -46,15 +46,25 @@ class UserEntry(Entry):
     """A user-defined subclass: it is an Entry for every clause of the property."""
 
 
+# key texts: the universe's keys 'a' / 'b' may be swapped for texts that mean something to %-formats, templates and
+# regular expressions (set per shard by the 'keytext' family, reset afterwards)
+KEYMAP = {}
+KEYMAPS = [{"a": "a}", "b": "{0}"}, {"a": "%s", "b": "100%"}, {"a": "k.d+(", "b": "a|b"}, {"a": "{}", "b": "\\1"}]
+
+
+def _k(key):
+    return KEYMAP.get(key, key)
+
+
 def universe(tier):
     u = {
-        "Ea1": lambda: Entry("article", "a", [Field("t", "1")]),
-        "Ea2": lambda: UserEntry("book", "a", [Field("u", "2")]),  # (a user subclass colliding with plain entries, both orders)
-        "Ea1t": lambda: Entry("article", "a", [Field("t", "1")]),  # structurally equal twin of Ea1
-        "Eb": lambda: UserEntry("article", "b", []),
+        "Ea1": lambda: Entry("article", _k("a"), [Field("t", "1")]),
+        "Ea2": lambda: UserEntry("book", _k("a"), [Field("u", "2")]),  # (a user subclass colliding with plain entries, both orders)
+        "Ea1t": lambda: Entry("article", _k("a"), [Field("t", "1")]),  # structurally equal twin of Ea1
+        "Eb": lambda: UserEntry("article", _k("b"), []),
         "E0": lambda: Entry("misc", "", [Field("n", "0")]),  # the empty key is a key like any other
-        "Sa": lambda: String("a", "x"),
-        "Sa2": lambda: UserString("a", "y"),
+        "Sa": lambda: String(_k("a"), "x"),
+        "Sa2": lambda: UserString(_k("a"), "y"),
     }
     u["P"] = lambda: Preamble("p")
     if tier == "thorough":
@@ -256,7 +266,7 @@ class World:
                 except Exception as e:
                     acc.violation(
                         {"oracle": "only_valueerror", "op": "add(iterable)", "exception": type(e).__name__},
-                        {"case": {"history": hist, "op": op, "tier_universe": list(self.uni)}, "observed": repr(e), "expected": "the iterable's own exception"},
+                        {"case": {"history": hist, "op": op, "tier_universe": list(self.uni), "keymap": dict(KEYMAP)}, "observed": repr(e), "expected": "the iterable's own exception"},
                         size=len(hist),
                     )
                     return False
@@ -266,7 +276,7 @@ class World:
                     kept = -1
                 else:
                     model.add([a, b][:kept], False)
-                case = {"history": hist, "op": op, "tier_universe": list(self.uni)}
+                case = {"history": hist, "op": op, "tier_universe": list(self.uni), "keymap": dict(KEYMAP)}
                 if kept < 0:
                     acc.violation({"oracle": "blocks_match_model", "op": "add"}, {"case": case, "observed": _show(lib), "expected": "a prefix of the iterable's blocks appended"}, size=len(hist))
                     return False
@@ -318,7 +328,7 @@ class World:
             raised = type(e).__name__
             acc.violation(
                 {"oracle": "only_valueerror", "op": kind, "exception": raised},
-                {"case": {"history": hist, "op": op, "tier_universe": list(self.uni)}, "observed": f"{raised}: {e}", "expected": "ValueError or success"},
+                {"case": {"history": hist, "op": op, "tier_universe": list(self.uni), "keymap": dict(KEYMAP)}, "observed": f"{raised}: {e}", "expected": "ValueError or success"},
                 size=len(hist),
             )
             return False
@@ -327,7 +337,7 @@ class World:
             ref()
         except ValueError:
             ref_raised = "ValueError"
-        case = {"history": hist, "op": op, "tier_universe": list(self.uni)}
+        case = {"history": hist, "op": op, "tier_universe": list(self.uni), "keymap": dict(KEYMAP)}
         opname = {"add": "add", "addl": "add", "rem": "remove", "reml": "remove", "rep": "replace"}[kind]
         if raised == "ValueError":
             after = canon(lib)
@@ -490,7 +500,42 @@ def explore(tier, seed, acc, procs):
 def shards(tier):
     U = names(tier)
     first_ops = [op for op in ops_for(tier, 0) if grows(op) <= maxlen(tier)]
-    return [("nodedup", i) for i in range(len(first_ops))] + [("foreign", i) for i in range(len(INITS))]
+    return [("nodedup", i) for i in range(len(first_ops))] + [("foreign", i) for i in range(len(INITS))] + [("keytext", i, j) for i in range(len(KEYMAPS)) for j in range(len(INITS))]
+
+
+def run_keytext(tier, km, init, acc):
+    """The same library with keys that hold %-format, template and regular-expression characters: every history of two
+    single-block operations from this initial state, judged like every other step."""
+    global KEYMAP
+    KEYMAP = dict(KEYMAPS[km])
+    try:
+        w0 = World(tier, init)
+        w0.judge(acc, {"history": [list(init)], "op": None, "tier_universe": names(tier), "keymap": km}, "init")
+        n0 = len(w0.lib.blocks)
+        # (add with the fail flag is left to the closure: its recorded finding F9 would flood these shards)
+        single = lambda ops: [op for op in ops if op[0] in ("rem", "rep") or (op[0] == "add" and not op[2])]
+        for op1 in single(ops_for(tier, n0)):
+            hist = [list(init)]
+            w = build(tier, hist)
+            acc.trace()
+            acc.case(nontrivial_key=("keytext", km, tuple(init), op1))
+            acc.count("keytext_histories")
+            if not w.apply(op1, acc, hist):
+                continue
+            n1 = len(w.lib.blocks)
+            if n1 > maxlen(tier):
+                continue
+            for op2 in single(ops_for(tier, n1)):
+                if op2[0] == "rep" and op2[1][0] == "p":
+                    continue  # (positions are covered through the blocks they hold)
+                h2 = hist + [list(op1)]
+                w2 = build(tier, h2)
+                acc.trace()
+                acc.case(nontrivial_key=("keytext", km, tuple(init), op1, op2))
+                acc.count("keytext_histories")
+                w2.apply(op2, acc, h2)
+    finally:
+        KEYMAP = {}
 
 
 def run_foreign(tier, init, acc):
@@ -524,6 +569,8 @@ def run_foreign(tier, init, acc):
 def run_shard(shard, tier, acc):
     if shard[0] == "foreign":
         return run_foreign(tier, INITS[shard[1]], acc)
+    if shard[0] == "keytext":
+        return run_keytext(tier, shard[1], INITS[shard[2]], acc)
     _, i = shard
     first_ops = [op for op in ops_for(tier, 0) if grows(op) <= maxlen(tier)]
     op1 = first_ops[i]
@@ -561,11 +608,17 @@ def run_shard(shard, tier, acc):
 
 
 def replay(case, acc):
+    global KEYMAP
     hist = case["history"]
     tier = "thorough" if "F" in case.get("tier_universe", []) else "quick"
-    w = build(tier, [tuple(hist[0])] + [_tup(o) for o in hist[1:]])
-    if case.get("op") is not None:
-        w.apply(_tup(case["op"]), acc, hist)
+    km = case.get("keymap") or {}
+    KEYMAP = dict(KEYMAPS[km]) if isinstance(km, int) else dict(km)
+    try:
+        w = build(tier, [tuple(hist[0])] + [_tup(o) for o in hist[1:]])
+        if case.get("op") is not None:
+            w.apply(_tup(case["op"]), acc, hist)
+    finally:
+        KEYMAP = {}
 
 
 def unit_test(case):
